@@ -52,6 +52,8 @@ func init() {
 		// (C08-acc) the interpreter treats the set operations as commutative accumulators when they are folded in an
 		// unordered loop; that argument needs them to leave their operands alone and to keep no pointer into them
 		rules.AccumulatorPurity(p, r, "C08-acc")
+		// premise of two entries of the choice-site table (group representative in the diff merge): key completeness
+		rules.DiffMergeKey(p, r, "C08-key")
 		var sources []ordertaint.Source
 		if fd := p.Func(core.PkgConnlist, "ConnlistAnalyzer", "ConnectionsListToString"); fd != nil {
 			sources = append(sources, ordertaint.Source{Param: fd.Obj.Type().(*types.Signature).Params().At(0), Ord: ordertaint.Unord})
